@@ -5,13 +5,61 @@ ROOT = os.path.dirname(os.path.dirname(os.path.abspath(__file__)))
 sys.path.insert(0, os.path.join(ROOT, "lib"))
 from props import PROPS
 props = [json.loads(l) for l in open(os.path.join(ROOT, "properties.jsonl"))]
+CORE = {
+ "C01": "C01_IndexRank64/128 (index entries = prefix counts), C01_Rank64/Rank128 (= bit-by-bit count and the bit, every position, both flavours), int32-faithful model equal to it under 64*len < 2^31, rank laws, histories with in-place edits",
+ "C02": "C02_Select32 / C02_Select32R64 (= i-th 1-bit and the next one or 64*len), C02_IndexSelect32(R64), C02_select8Lookup (all 2048 table entries), rank(select i) = i and select(rank p) = next 1 >= p",
+ "C03": "C03_loose / C03_strict (PathToIndex(Loose) = pre-order rank among stored nodes, all three branches), C03_count, C03_bijection, C03_monotone, C03_debug (no contract fires on valid input), C03_shiftMulti",
+ "C04": "C04_allpaths (= stored path words filtered by [from,to), strictly ascending), C04_decode, C04_roundtrip, C04_index_all, C04_subtree",
+ "C05": "C05_inverse and C05_inverse' (IndexToPath inverts the full-tree PathToIndex, heights 0..30, both directions), C05_shortcut (the common-prefix shortcut = pure descent steps), C05_table, C05_preorder",
+ "C06": "C06_marshal, C06_readheader, C06_unmarshal (any chunking, any trailing bytes), C06_stream (any number of frames), C06_codec_roundtrip (raw and BytesValue codecs close the codec premise)",
+ "C07": "C07_cut / C07_cut_eof (every cut point), C07_hsize / C07_bsize, C07_writer_every_point, C07_total (never panics; success implies a complete well-formed frame), C07_stream_exact",
+ "C08": "C08_FromStr / C08_Get (= MSB-first n-bit chunks, widths 1,2,4,8), C08_ToStr, C08_ToStr_FromStr and C08_FromStr_ToStr (round trips), C08_FirstDiff_min",
+ "C09": "C09_new (= canonical encoding of the bit string), C09_len, C09_cmp (= lexicographic bit order for arbitrary bit lists: total order, 0 iff equal, proper prefix first), C09_cmpupto, C09_strcmpupto, C09_wf_iff (decode), int32 model",
+ "C10": "C10_len/height/bits/mask/str (fields of enc h q), C10_order (numeric order = pre-order), C10_injective, C10_image (exactly the path words decode), C10_subtree_interval, C10_newpath_raw (any arguments)",
+ "C11": "C11_FromStr32 (k = clamp, value = the w-bit window), C11_PathOf, C11_PathsOf (= map PathOf + adjacent dedup), C11_FromStr32_wrap (whole int32 range of from), C11_PathsOf_sorted",
+ "C12": "C12_Of, C12_ToArray, round trips, C12_Get/SafeGet (total), C12_OfMany_nonpanic, C12_Builder_history (invariant over any Extend/Set history), int32 model",
+ "C13": "C13_NextOne / C13_PrevOne (= first / last 1-bit of the range or -1), C13_IterNext / C13_Iter_ToArray, C13_NextPrevDual, C13_NextOne_any (exact behaviour and panic set outside the domain), int32 model",
+ "C14": "C14_Join (length, flat = packed values ++ zeros), C14_Getw_Join, C14_Slice (length ceil((to-from)/64) and the bit sub-range), C14_Slice_bitwise, C14_mask_tables",
+ "C15": "C15_invariant (over every Set/Compact history from NewTailBitmap(o)), C15_Get_is_membership, C15_offset_monotone, C15_Compact_changes_no_Get, C15_checker_decides_property, struct-literal and int64 variants",
+ "C16": "C16_FirstDiffBits (= bit-LCP of neighbours), C16_CountPrefixes (= number of distinct truncated prefixes, min first-difference), C16_queries (any repeated/overlapping queries on one SigBits), int32 model",
+ "C17": "C17_ShardByPrefix (bounded contiguous shards, exact LCP lengths, strictly ascending prefixes; fuel suffices), C17_checker_sound/complete, C17_exact (= naive recursive split), C17_route_lookup",
+ "C18": "refinement of the concrete int64 SectionWriter to a cursor/length machine for every call sequence and every faulty underlying writer, containment, accounting, ErrShortWrite iff, Seek incl. the int64 wrap, AtToReader, two and nested writers, pbcmpl through sections",
+ "C19": "schedule independence of read-only operations (every schedule, any number of threads: memory unchanged, results = sequential), and - against an effect model REGENERATED from the Go source (SSA) on every run - shared_writes = [], results_shared = [], unclassified = [], every table written only from init; PARTIAL BY NATURE: the step from 'no shared write in SSA form' to the runtime is trusted (translator, compiler, runtime), monitored by -race batches from 8-16 goroutines",
+ "C20": "C20_sizeof_structural (= sum of leaf widths + container headers, by an independent fold), C20_Of, C20_Stat_first_line_text, C20_Stat_report (whole report), C20_graph_tree_sum / shared pointers counted twice, C20_ToSlice",
+}
+TECH = {
+ "C19": "Coq proof (generic schedule-independence theorem) + effect model regenerated from the Go source by an SSA translator and re-checked by coqc on every run + -race differential batches",
+ "C15": "Coq proof: invariant by induction over operation histories (fold_left) + refinement to an abstract set; differential correspondence check on whole histories",
+ "C18": "Coq proof: refinement of the int64 state machine to an abstract cursor/length spec over any call sequence and any faulty writer + differential correspondence check on histories with fault scripts",
+ "C12": "Coq proof: algebraic laws / round trips + history invariant for Builder + differential correspondence check",
+ "C17": "Coq proof: relational spec with a boolean checker proved sound and complete + induction on fuel for the recursive split; the extracted checker judges the implementation's output",
+}
 checks, na, claimed = [], [], []
 for p in props:
     pid = p["id"]
     need = ["coq/theories/Properties/%s.v" % pid, "coq/theories/Run/%s.v" % pid, "harness/%s.go" % pid.lower(), "lib/props.d/%s.py" % pid]
     if pid in PROPS and all(os.path.exists(os.path.join(ROOT, f)) for f in need):
-        m = PROPS[pid].get("manifest", {})
+        m = dict(PROPS[pid].get("manifest", {}))
         claimed.append(pid)
+        # per-property wording generated from the tree: theorem names (core ones first), ops, what is proved / trusted
+        import re as _re
+        _src = open(os.path.join(ROOT, "coq/theories/Properties/%s.v" % pid)).read()
+        _thms = _re.findall(r"^Theorem\s+(\w+)", _src, _re.M)
+        _part = [x for x in _thms if x.endswith("_partial")]
+        _core = CORE.get(pid, "")
+        if "text" not in m:
+            m["text"] = ("Machine-checked proof (Coq 8.16, no axioms: every Print Assumptions is 'Closed under the global context') of %d theorems "
+                         "about an executable Gallina model of the anchored Go functions, unbounded in sizes/positions/histories: %s. "
+                         "%s"
+                         "The model is tied to /repo on every run by the correspondence check: the extracted model and the extracted "
+                         "specification checker judge the real functions' outputs on exhaustive small sub-domains, structured random and large inputs, "
+                         "held-object / pair re-run / fresh-process cases; a disagreement is reported with the failing input as replay. "
+                         "This is the right level because the property quantifies over all inputs (resp. histories), which only a theorem settles, "
+                         "while a theorem about a model needs a checked tie to the code.") % (
+                             len(_thms), _core or ", ".join(_thms[:6]),
+                             ("Partial theorems: %s. " % ", ".join(_part)) if _part else "No theorem is partial. ")
+        if "technique" not in m:
+            m["technique"] = TECH.get(pid, "Coq proof (induction / invariants / refinement) about a hand-written executable model + differential correspondence check of the extracted model and spec checker against the real code")
         checks.append({
             "property_id": pid,
             "quick_cmd": "./check %s --tier quick" % pid,
@@ -36,3 +84,9 @@ man = {"version": 1, "setup_cmd": "./setup.sh",
        "notes": "See DESIGN.md. ./check <ID> --tier quick|thorough [--seed N]; VERIF_SEED / VERIF_TIER honoured. Exit 0 ok, 1 VIOLATION, 2 tool error."}
 json.dump(man, open(os.path.join(ROOT, "MANIFEST.json"), "w"), indent=1)
 print("claimed:", claimed)
+# keep baseline/anchors.json (used by ./check's escalation pass) in step with props.d 'files' — only when /repo is clean
+import subprocess
+if subprocess.run(["git", "-C", "/repo", "status", "--porcelain"], stdout=subprocess.PIPE, text=True).stdout.strip() == "":
+    subprocess.run([os.path.join(ROOT, "check"), "--write-baseline"])
+else:
+    print("WARNING: /repo has uncommitted changes; baseline/anchors.json not rewritten")
